@@ -1,7 +1,7 @@
 (** The tie for [Terminal::execute] as a whole (see Proofs/TermTieW.v for the method). *)
 From Coq Require Import Lia ZArith ZifyBool ZifyNat ZifyN.
 From Avt Require Import Oracles.Step Proofs.Inv Proofs.TermEasy Gen.TermFns Proofs.TermTie Proofs.InvStep
-  Proofs.TermTieW.
+  Proofs.TermTieW Proofs.TermTieX_A Proofs.TermTieX_B Proofs.TermTieX_C.
 Ltac Zify.zify_post_hook ::= Z.div_mod_to_equations.
 Local Open Scope Z_scope.
 
@@ -10,7 +10,10 @@ Theorem tie_execute_all : forall t f, TInv t ->
   w_execute Om (zabs t) (wabs t) f = Some (wres (execute t f)).
 Proof.
   intros t f HT. pose proof (TInv_ZW t HT) as H.
-  destruct f; cbn [w_execute execute]; f_equal;
+  destruct f;
+    first [ apply tie_execute_A; [exact HT | reflexivity] | apply tie_execute_B; [exact HT | reflexivity]
+          | apply tie_execute_C; [exact HT | reflexivity] | idtac ];
+    cbn [w_execute execute]; f_equal;
     lazymatch goal with
     | |- w_print _ _ _ _ = _ => apply w_print_eq, H
     | |- w_rep _ _ _ _ = _ => apply w_rep_eq, HT
@@ -34,7 +37,6 @@ Proof.
     | |- w_decstr _ _ _ = _ => apply w_decstr_eq
     | |- w_decset _ _ _ _ = _ => apply w_decset_eq, HT
     | |- w_decrst _ _ _ _ = _ => apply w_decrst_eq, HT
-    | |- zlift _ _ _ = _ => w_tie t H
     | |- context [op_full] => full_steps
     end.
 Qed.
